@@ -73,6 +73,8 @@ func (e *Enc) callCommon(fr *Frame, st *State, cc *ssa.CallCommon, fnv *Val, arg
 				}
 				fr.contract.callAssertSeen(key)
 				e.addObl(&Obligation{Name: key + ":assert:" + clauseName(cl, i), Kind: "assert", Label: cl.Label, Clause: "at " + key + ": " + cl.Src, Reach: st.reach, Goal: g, Pos: e.posStr(pos)})
+				// an assertion that has its own obligation is a lemma for everything that follows on this path
+				e.assume(st, g)
 			}
 		}
 	}
@@ -98,6 +100,7 @@ func (e *Enc) callCommon(fr *Frame, st *State, cc *ssa.CallCommon, fnv *Val, arg
 			}
 		}
 		if c, ok := e.DB.Contracts[key]; ok && c.callable() {
+			c = e.pickAlt(c, append([]*Val{recv}, args...))
 			e.safety(fr, st, "nil", not(eq(recv.L[0].T, "0")), "method call on nil interface "+cc.Method.Name(), pos)
 			return e.applyContract(fr, st, c, append([]*Val{recv}, args...), rt, hint, pos)
 		}
@@ -877,6 +880,36 @@ func (e *Enc) encCopy(fr *Frame, st *State, cc *ssa.CallCommon, args []*Val, rt 
 		e.heapSet(st, k, sorts[i], "(store "+h+" "+d.L[0].T+" "+na+")")
 	}
 	return &Val{T: rt, L: []Sc{{n, "Int"}}}
+}
+
+// pickAlt: among the alternative assumed contracts of one method (Contract.Alts) choose the one that accepts the
+// statically known dynamic type of an interface-typed argument (`requires typeof(p) == type(T)`); without such
+// knowledge, or when no alternative accepts it, the first contract is used (its requires then fail at the call site).
+func (e *Enc) pickAlt(c *Contract, args []*Val) *Contract {
+	if len(c.Alts) == 0 {
+		return c
+	}
+	for _, cand := range append([]*Contract{c}, c.Alts...) {
+		vars := e.bindParams(cand, args, cand.Sig)
+		for _, g := range typeGuards(cand) {
+			v, ok := vars[g[0].(string)]
+			if !ok || len(v.L) != 2 {
+				continue
+			}
+			n, isConst := isConstTerm(v.L[0].T)
+			if !isConst {
+				continue
+			}
+			gt, err := e.resolveGoType(g[1].(*TypeExpr), cand.PkgPath, cand.Imports)
+			if err != nil {
+				continue // a type of a package that is not part of this load
+			}
+			if int64(e.TI.tagOf(gt)) == n.Int64() {
+				return cand
+			}
+		}
+	}
+	return c
 }
 
 // havocEffects: `modifies effects(f)` at a call site — the callee may do whatever calling the function value f does, any
